@@ -266,7 +266,9 @@ func applyXforms(ls []tline, ts []xform) ([]tline, map[string]int, int) {
 			case "tabs":
 				ls[i].s = strings.Replace(ls[i].s, " ", "\t", -1)
 			case "nbsp": // another kind of horizontal white space: no-break / ideographic / thin spaces (multi-byte)
-				ls[i].s = strings.Replace(ls[i].s, " ", []string{"\u00a0", "\u3000", "\u2009", " \u00a0"}[x.Arg%4], -1)
+				// also the ASCII control characters Go counts as white space: form feed (the GPL texts carry them), vertical tab,
+				// a lone carriage return
+				ls[i].s = strings.Replace(ls[i].s, " ", []string{"\u00a0", "\u3000", "\u2009", " \u00a0", "\f", "\v", " \r ", "\r"}[x.Arg%8], -1)
 			case "multiblank":
 				ls[i].s = strings.Replace(ls[i].s, " ", strings.Repeat(" ", 2+x.Arg%3), -1)
 			case "trailing":
